@@ -18,7 +18,8 @@ THEOREMS = ["C01_sem_binop_left_error", "C01_sem_binop_right_error", "C01_sem_bi
             "C01_pure_expression_in_a_session", "C01_sem_pure", "C01_sem_simple", "C01_simple_statement",
             "C01_simple_sessions_partial", "C01_sem_statement", "C01_statement_compiled", "C01_statement_run",
             "C01_statement_run_file_mode", "C01_statement_sessions_partial", "C01_statement_worlds_related",
-            "C01_statement_sem_vs_vm"]
+            "C01_statement_sem_vs_vm", "C01_body_expression_compiled", "C01_sem_body_expression",
+            "C01_user_call_compiled"]
 
 CORPUS = [
     # witnesses of defects repaired in /repo (they stay in the corpus)
